@@ -370,3 +370,36 @@ def fallback_chain(rule, prog, fpath, levels, keyprefix):
     for i, l in enumerate(levels):
         if i not in seen:
             rule.violation("%s returns %s" % (keyprefix, l[0]), "%s never returns %s" % (fpath.split("::")[-1], l[0]), loc(f.sp))
+
+
+def mode_fact(fact, what="publish_mode", variants=("FullFDT", "ObjectsBeingTransferred")):
+    """normalise a fact about a two-valued enum slot: returns (variant, truth) for `slot is Variant`, whether the source wrote a `match`
+    (variant fact on the discriminant) or `slot == Enum::Variant` / `!=` (eq fact against a unit aggregate); None for unrelated facts."""
+    (a, t) = fact
+    if a[0] == "variant" and what in show(a[1]) and a[2] in variants:
+        return a[2], t
+    if a[0] == "eq":
+        l, r = show(a[1]), show(a[2])
+        for v in variants:
+            for x, y in ((l, r), (r, l)):
+                if what in x and re.search(r"::%s(\{\})?$" % re.escape(v), y):
+                    return v, t
+    if a[0] == "true":
+        # `matches!(slot, Enum::Variant)` / PartialEq::eq(&slot, &Enum::Variant)
+        for c in walk(a[1]):
+            if c[0] == "call" and re.search(r"(PartialEq|cmp)::(eq|ne)$", c[1]) and len(c[2]) == 2:
+                l, r = show(c[2][0]), show(c[2][1])
+                for v in variants:
+                    for x, y in ((l, r), (r, l)):
+                        if what in x and re.search(r"::%s(\{\})?$" % re.escape(v), y):
+                            return v, (t if c[1].endswith("eq") else not t)
+    return None
+
+
+def mode_is(fact, variant, what="publish_mode", variants=("FullFDT", "ObjectsBeingTransferred")):
+    """True / False when the fact decides `slot is variant` (two-valued enum: `is other` decides it too), None otherwise"""
+    m = mode_fact(fact, what, variants)
+    if m is None:
+        return None
+    v, t = m
+    return t if v == variant else (not t)
